@@ -2,9 +2,11 @@
 C07 — reference semantics: what [variant], [optional], [expected] prescribe, with no dispatch, no
 union access and no intermediate objects.
 
-* a `std::variant` is a pair (active index, value); assignment makes the target equal to the source
-  (a moved-from source keeps its index and holds a moved-from element), `swap` exchanges, `emplace`
-  and in-place construction set (index, value);
+* a `std::variant` is a pair (active index, value); assignment to the same alternative assigns the element
+  through, assignment to a different alternative destroys the old element and constructs the new one from the
+  source (copy-then-move where [variant.assign] prescribes it), construction copy / move constructs the
+  element, a moved-from source keeps its index and holds the moved-from element; `swap` is the generic
+  three-move exchange; `emplace` and in-place construction set (index, value);
 * a `std::optional` is an `Option`, ordered with `none` below every `some`;
 * a `std::expected` is a value or an error;
 * the converting constructor selects the alternative that overload resolution over the
@@ -16,28 +18,65 @@ open Tetl.C07
 
 variable {α β : Type}
 
-def mvdV (mvd : α → α) (v : V α) : V α := { v with val := mvd v.val }
+/-- assignment through to an element of the same alternative: copy assignment `d = s` or move assignment
+    `d = move(s)`; returns (target element, source element afterwards) -/
+def thru (el : Elem α) (mv : Bool) (d s : α) : α × α := if mv then el.ma d s else (el.ca d s, s)
+
+/-- construction of a new element from a source element: move construction, copy construction, or — for a
+    copy whose alternative has a potentially-throwing copy constructor and a non-throwing move constructor
+    (`fb`) — copy construction of a temporary followed by move construction from it ([variant.assign]/2.4
+    `operator=(variant(rhs))`, [expected.object.assign] reinit-expected); returns (new element, source afterwards) -/
+def cons (el : Elem α) (fb : α → Bool) (mv : Bool) (s : α) : α × α :=
+  if mv then el.mc s else (if fb s then (el.mc (el.cc s)).1 else el.cc s, s)
+
+def noFb : α → Bool := fun _ => false
+
+/-- copy / move construction of a variant ([variant.ctor]): the new object holds the source's alternative,
+    copy (move) constructed from the source's value; a moved-from source keeps its index and holds the
+    moved-from element.  Returns (new object, source afterwards). -/
+def ctorV (el : Elem α) (mv : Bool) (s : V α) : V α × V α :=
+  (⟨s.idx, (cons el noFb mv s.val).1⟩, ⟨s.idx, (cons el noFb mv s.val).2⟩)
+
+/-- copy / move assignment of a variant ([variant.assign]).  Same alternative: the element is assigned
+    through.  Different alternative: the old element is destroyed and the new one constructed from the source
+    (directly, or copy-then-move where the standard prescribes it).  Returns (target, source afterwards). -/
+def assignV (el : Elem α) (fb : α → Bool) (mv : Bool) (d s : V α) : V α × V α :=
+  if d.idx = s.idx then (⟨s.idx, (thru el mv d.val s.val).1⟩, ⟨s.idx, (thru el mv d.val s.val).2⟩)
+  else (⟨s.idx, (cons el fb mv s.val).1⟩, ⟨s.idx, (cons el fb mv s.val).2⟩)
+
+/-- the generic `swap` of [utility.swap] on two distinct objects: `T t(move(a)); a = move(b); b = move(t);`
+    (only moves: no copy-then-move) -/
+def swapV (el : Elem α) (a b : V α) : V α × V α :=
+  let r1 := ctorV el true a
+  let r2 := assignV el noFb true r1.2 b
+  let r3 := assignV el noFb true r2.2 r1.1
+  (r2.1, r3.1)
+
+/-- `swap(a, a)`: the middle self move assignment is a no-op -/
+def swapSelfV (el : Elem α) (a : V α) : V α :=
+  let r1 := ctorV el true a
+  (assignV el noFb true r1.2 r1.1).1
 
 /-- one operation on the live objects; operations naming a non-existent object change nothing -/
-def step (mvd : α → α) (st : List (V α)) : Op α → List (V α)
+def step (el : Elem α) (fb : α → Bool) (st : List (V α)) : Op α → List (V α)
   | .emplace k i x => st.set k ⟨i, x⟩
   | .make k i x => st.set k ⟨i, x⟩
   | .assign k j mv =>
-    match st[j]? with
-    | some s => if k = j then st else ((st.set k s).set j (if mv then mvdV mvd s else s))
-    | none => st
+    match st[k]?, st[j]? with
+    | some d, some s => if k = j then st else ((st.set k (assignV el fb mv d s).1).set j (assignV el fb mv d s).2)
+    | _, _ => st
   | .ctor k j mv =>
     match st[j]? with
-    | some s => if k = j then st else ((st.set j (if mv then mvdV mvd s else s)).set k s)
+    | some s => if k = j then st.set k (ctorV el mv s).1 else ((st.set j (ctorV el mv s).2).set k (ctorV el mv s).1)
     | none => st
   | .swap k j =>
     match st[k]?, st[j]? with
-    | some a, some b => (st.set k b).set j a
+    | some a, some b => if k = j then st.set k (swapSelfV el a) else ((st.set k (swapV el a b).1).set j (swapV el a b).2)
     | _, _ => st
 
-def run (mvd : α → α) : List (V α) → List (Op α) → List (V α)
+def run (el : Elem α) (fb : α → Bool) : List (V α) → List (Op α) → List (V α)
   | st, [] => st
-  | st, op :: ops => run mvd (step mvd st op) ops
+  | st, op :: ops => run el fb (step el fb st op) ops
 
 /-- documented preconditions of one operation: the objects exist, the alternative index is one of the variant's -/
 def valid (n : Nat) (st : List (V α)) : Op α → Bool
@@ -47,9 +86,9 @@ def valid (n : Nat) (st : List (V α)) : Op α → Bool
   | .ctor k j _ => k < st.length && j < st.length
   | .swap k j => k < st.length && j < st.length
 
-def validRun (n : Nat) (mvd : α → α) : List (V α) → List (Op α) → Bool
+def validRun (n : Nat) (el : Elem α) (fb : α → Bool) : List (V α) → List (Op α) → Bool
   | _, [] => true
-  | st, op :: ops => valid n st op && validRun n mvd (step mvd st op) ops
+  | st, op :: ops => valid n st op && validRun n el fb (step el fb st op) ops
 
 /-- `get_if<I>` -/
 def getIf (v : V α) (i : Nat) : Option α := if v.idx = i then some v.val else none
@@ -85,20 +124,41 @@ inductive OOp (α : Type) where
   | swap (k j : Nat)
   deriving Repr
 
-def ostep (mvd : α → α) (st : List (Option α)) : OOp α → List (Option α)
+/-- [optional.ctor]: copy / move construction; returns (new object, source afterwards) -/
+def ctorO (el : Elem α) (mv : Bool) (s : Option α) : Option α × Option α :=
+  (s.map fun x => (cons el noFb mv x).1, s.map fun x => (cons el noFb mv x).2)
+
+/-- [optional.assign]: both engaged: assign through; only the source engaged: construct from it (directly: no
+    copy-then-move in [optional.assign]); source empty: the target is reset.  Returns (target, source afterwards). -/
+def assignO (el : Elem α) (mv : Bool) : Option α → Option α → Option α × Option α
+  | some d, some s => (some (thru el mv d s).1, some (thru el mv d s).2)
+  | none, some s => (some (cons el noFb mv s).1, some (cons el noFb mv s).2)
+  | _, none => (none, none)
+
+def swapO (el : Elem α) (a b : Option α) : Option α × Option α :=
+  let r1 := ctorO el true a
+  let r2 := assignO el true r1.2 b
+  let r3 := assignO el true r2.2 r1.1
+  (r2.1, r3.1)
+
+def swapSelfO (el : Elem α) (a : Option α) : Option α :=
+  let r1 := ctorO el true a
+  (assignO el true r1.2 r1.1).1
+
+def ostep (el : Elem α) (st : List (Option α)) : OOp α → List (Option α)
   | .reset k => st.set k none
   | .emplace k x => st.set k (some x)
   | .assign k j mv =>
-    match st[j]? with
-    | some s => if k = j then st else ((st.set k s).set j (if mv then s.map mvd else s))
-    | none => st
+    match st[k]?, st[j]? with
+    | some d, some s => if k = j then st else ((st.set k (assignO el mv d s).1).set j (assignO el mv d s).2)
+    | _, _ => st
   | .ctor k j mv =>
     match st[j]? with
-    | some s => if k = j then st else ((st.set j (if mv then s.map mvd else s)).set k s)
+    | some s => if k = j then st.set k (ctorO el mv s).1 else ((st.set j (ctorO el mv s).2).set k (ctorO el mv s).1)
     | none => st
   | .swap k j =>
     match st[k]?, st[j]? with
-    | some a, some b => (st.set k b).set j a
+    | some a, some b => if k = j then st.set k (swapSelfO el a) else ((st.set k (swapO el a b).1).set j (swapO el a b).2)
     | _, _ => st
 
 /-- how `etl::optional` implements its operations on its `variant<nullopt_t,T>` member
@@ -121,10 +181,6 @@ inductive E (α : Type) where
 /-- abstraction of an `etl::expected<T,E>` object: a value iff the variant index is 0 -/
 def absE (v : V α) : E α := if v.idx = 0 then .val v.val else .err v.val
 
-def E.map (f : α → α) : E α → E α
-  | .val x => .val (f x)
-  | .err x => .err (f x)
-
 inductive EOp (α : Type) where
   | setVal (k : Nat) (x : α)              -- expected(in_place, x), emplace(x)
   | setErr (k : Nat) (x : α)              -- expected(unexpect, x)
@@ -133,20 +189,42 @@ inductive EOp (α : Type) where
   | swap (k j : Nat)
   deriving Repr
 
-def estep (mvd : α → α) (st : List (E α)) : EOp α → List (E α)
+def ctorE (el : Elem α) (mv : Bool) : E α → E α × E α
+  | .val x => (.val (cons el noFb mv x).1, .val (cons el noFb mv x).2)
+  | .err x => (.err (cons el noFb mv x).1, .err (cons el noFb mv x).2)
+
+/-- [expected.object.assign]: value ← value and error ← error assign through; value ← error and error ← value
+    destroy the old member and construct the new one (reinit-expected: directly, or copy-then-move, `fb`) -/
+def assignE (el : Elem α) (fb : α → Bool) (mv : Bool) : E α → E α → E α × E α
+  | .val d, .val s => (.val (thru el mv d s).1, .val (thru el mv d s).2)
+  | .err d, .err s => (.err (thru el mv d s).1, .err (thru el mv d s).2)
+  | .err _, .val s => (.val (cons el fb mv s).1, .val (cons el fb mv s).2)
+  | .val _, .err s => (.err (cons el fb mv s).1, .err (cons el fb mv s).2)
+
+def swapE (el : Elem α) (a b : E α) : E α × E α :=
+  let r1 := ctorE el true a
+  let r2 := assignE el noFb true r1.2 b
+  let r3 := assignE el noFb true r2.2 r1.1
+  (r2.1, r3.1)
+
+def swapSelfE (el : Elem α) (a : E α) : E α :=
+  let r1 := ctorE el true a
+  (assignE el noFb true r1.2 r1.1).1
+
+def estep (el : Elem α) (fb : α → Bool) (st : List (E α)) : EOp α → List (E α)
   | .setVal k x => st.set k (.val x)
   | .setErr k x => st.set k (.err x)
   | .assign k j mv =>
-    match st[j]? with
-    | some s => if k = j then st else ((st.set k s).set j (if mv then s.map mvd else s))
-    | none => st
+    match st[k]?, st[j]? with
+    | some d, some s => if k = j then st else ((st.set k (assignE el fb mv d s).1).set j (assignE el fb mv d s).2)
+    | _, _ => st
   | .ctor k j mv =>
     match st[j]? with
-    | some s => if k = j then st else ((st.set j (if mv then s.map mvd else s)).set k s)
+    | some s => if k = j then st.set k (ctorE el mv s).1 else ((st.set j (ctorE el mv s).2).set k (ctorE el mv s).1)
     | none => st
   | .swap k j =>
     match st[k]?, st[j]? with
-    | some a, some b => (st.set k b).set j a
+    | some a, some b => if k = j then st.set k (swapSelfE el a) else ((st.set k (swapE el a b).1).set j (swapE el a b).2)
     | _, _ => st
 
 /-- `etl::expected` on its `variant<T,E>` member; `emplace` is `_u.emplace<0>`, construction is in_place_index -/
@@ -156,6 +234,19 @@ def expToVar (viaEmplace : Bool) : EOp α → Op α
   | .assign k j mv => .assign k j mv
   | .ctor k j mv => .ctor k j mv
   | .swap k j => .swap k j
+
+/-- [expected.object.obs] value_or, [expected.object.monadic] and_then / or_else on value-or-error -/
+def E.valueOr (d : α) : E α → α
+  | .val x => x
+  | .err _ => d
+
+def E.andThen {ρ : Type} (f : α → ρ) (onErr : α → ρ) : E α → ρ
+  | .val x => f x
+  | .err e => onErr e
+
+def E.orElse {ρ : Type} (onVal : α → ρ) (f : α → ρ) : E α → ρ
+  | .val x => onVal x
+  | .err e => f e
 
 /-! ### converting constructor -/
 
